@@ -31,6 +31,8 @@ def gen_history(r, maxlen):
         if k < .3:
             pos = (r.choice(B) if r.random() < .5 else r.randrange(65536), r.choice(B) if r.random() < .5 else r.randrange(65536))
             ops.append(("m",) + pos)
+        elif k < .36:
+            ops.append(("r", r.choice([1, 8, 640]), r.choice([1, 8, 480])))
         elif k < .45:
             ops.append(("c", r.randint(1, 8)))
         elif k < .6:
@@ -78,6 +80,8 @@ def run_impl(ops):
                 d.addCallback(C.mouseDown, op[1])
             elif op[0] == "u":
                 d.addCallback(C.mouseUp, op[1])
+            elif op[0] == "r":
+                d.addCallback(lambda cl, op=op: (cl.updateDesktopSize(op[1], op[2]), cl)[1])
             else:
                 if op[3] == 1:
                     d.addCallback(C.mouseDrag, op[1], op[2])
@@ -133,7 +137,9 @@ def oracle(ops, res):
         for e in mine:
             if e[1] != 5:
                 return f"op {i} {op}: not a 6-byte PointerEvent: {e}"
-        if op[0] == "m":
+        if op[0] == "r":
+            want = []          # a desktop-size change sends nothing and leaves position and buttons alone
+        elif op[0] == "m":
             pos = (op[1], op[2])
             want = [(mask,) + pos]
         elif op[0] == "d":
@@ -185,7 +191,8 @@ def oracle(ops, res):
 
 
 def model_line(ops):
-    return "ptr " + " ".join(":".join(str(v) for v in op) for op in ops)
+    # desktop-size changes are not pointer operations: the model's pointer state machine never sees them
+    return "ptr " + " ".join(":".join(str(v) for v in op) for op in ops if op[0] != "r")
 
 
 def run(ctx):
